@@ -283,7 +283,7 @@ Proof. intros (r & wtr & _ & _ & [(_ & _ & -> & _)|(_ & _ & -> & _)]); auto. Qed
 (* toOffline                                                           *)
 
 Definition went_offline (c c' : client) (tr : list req) : Prop :=
-  (k_wsem c = WsClosed /\ c' = c /\ tr = [])
+  (k_wsem c = WsClosed /\ c' = c <| k_rconn := None |> /\ tr = [QClose (conn_of c)])
   \/ (k_wsem c <> WsClosed /\ tr = [QClose (conn_of c)] /\
       k_rconn c' = None /\ k_wsem c' = WsPending /\ k_online c' = false /\
       k_big c' = None /\ k_rbuf c' = [] /\
@@ -301,7 +301,7 @@ Proof.
     right. rewrite Hx, bp_rconn, bp_wsem, bp_online, bp_big, bp_rbuf, bp_closed, bp_csem.
     repeat split; auto. }
   destruct (k_wsem c) eqn:W; try (apply (H _ eq_refl); discriminate).
-  apply lspec_ret. left. auto.
+  eapply lspec_bind; [apply tell_spec|]. intros _ t ->. apply lspec_ret. left. auto.
 Qed.
 
 (* ------------------------------------------------------------------ *)
@@ -986,9 +986,10 @@ Qed.
 Lemma to_offline_g c : lspec (to_offline c) (fun c' _ => Inv c c').
 Proof.
   unfold to_offline.
-  destruct (k_wsem c); try (apply lspec_ret; apply Inv_refl);
-    (eapply lspec_bind; [apply tell_spec|]; intros _ t _; apply lspec_ret;
-     eapply Inv_trans; [|apply Inv_break_pending]; apply Inv_same; reflexivity).
+  destruct (k_wsem c) eqn:W;
+    try (eapply lspec_bind; [apply tell_spec|]; intros _ t _; apply lspec_ret;
+         eapply Inv_trans; [|apply Inv_break_pending]; apply Inv_same; reflexivity).
+  eapply lspec_bind; [apply tell_spec|]. intros _ t _. apply lspec_ret. apply Inv_same. reflexivity.
 Qed.
 
 (* to_offline, then return *)
